@@ -15,8 +15,14 @@ VerdictIsPrecedence, OrderIndependence, ExitNonZeroIffNotAllPass, ValidNeverAbst
    test contract with one arm per path, scripted stub solver (harness/stub_solver.py), the schedule forced by
    gates at the code sites.  Observed exit code, callback outputs, gate events, solver invocations, shutdown
    calls must equal the model's; the observed verdict must be the REQUIRED one.
-3. Negative controls: mutated expectation tables, a corrupted model record and a deliberately wrong wrapper of
-   SolverOutput.from_result (unknown -> unsat) must all be rejected.
+3. Trace validation (code -> spec): the per-thread event sequences, the final order of solver_outputs and the exit
+   code of every real run (forced schedules, and unforced runs with free-running stubs) must be reproduced by some
+   interleaving of Verdict's actions (spec/Trace_Verdict.tla); the invariants OneOutputPerQuery / Aggregate table /
+   ValidNeverAbstract / ShutdownOnlyAfterValid are also evaluated directly on every run.
+4. Process exit code: every third batch goes through halmos._main (forge build stubbed out); plus an all-pass
+   contract (exit 0) and a contract whose deployment reverts (selected tests without result -> exit 1).
+5. Negative controls: mutated expectation tables, corrupted model records, corrupted traces and a deliberately
+   wrong wrapper of SolverOutput.from_result (unknown -> unsat) must all be rejected.
 """
 
 from __future__ import annotations
@@ -25,6 +31,7 @@ import json
 import multiprocessing
 import os
 import random
+import threading
 import time
 from concurrent.futures import ThreadPoolExecutor, as_completed
 
@@ -54,13 +61,13 @@ QUICK = {
 THOROUGH = {
     "verify": ["q2", "q3", "exit", "canon2", "canon3", "t1thr", "t3", "t3c", "t4"],
     "find": ["f_precedence", "f_order", "f_lostcex"],
-    "gen": {"genq": 1500, "gencanon2": 1500, "gencache": 300, "gencache3": 200, "sim4": 3000, "gen2": 2500, "gencanon3": 1500},
+    "gen": {"genq": 800, "gencanon2": 800, "gencache": 200, "gencache3": 150, "sim4": 1500, "gen2": 1000, "gencanon3": 500},
     "sim_num": {"sim4": 1500},
     "canon_gen": "gencanon2",
-    "free": {"genq": 300, "sim4": 300},
+    "free": {"genq": 150, "sim4": 150},
     "tlc_workers": 6,
     "tlc_parallel": 3,
-    "budget_s": 20 * 60,
+    "budget_s": 17 * 60,
 }
 
 
@@ -134,6 +141,58 @@ def c05_pool_close():
         _POOL = None
 
 
+class C05Feeder(threading.Thread):
+    """Hands batches to the pool keeping only a few in flight, so that nothing is left queued inside the pool when the
+    time budget of the replay ends (thorough tier); mandatory batches (prio) are handed out first and always."""
+
+    def __init__(self, pool, cap: int, budget_end: float):
+        super().__init__(name="c05-feeder", daemon=True)
+        self.pool, self.cap, self.budget_end = pool, cap, budget_end
+        self.lock = threading.Lock()
+        self.todo: list = []
+        self.inflight: dict = {}
+        self.results: dict = {}
+        self.dropped: list = []
+        self.closed = False
+        self.error: str | None = None
+
+    def add(self, job: dict, prio: bool = False) -> None:
+        with self.lock:
+            if prio:
+                self.todo.insert(0, job)
+            else:
+                self.todo.append(job)
+
+    def run(self) -> None:
+        try:
+            while True:
+                with self.lock:
+                    for jid in [j for j, a in self.inflight.items() if a.ready()]:
+                        self.results[jid] = self.inflight.pop(jid).get()
+                    over = time.time() > self.budget_end
+                    while self.todo and len(self.inflight) < self.cap:
+                        if over and not self.todo[0].get("prio"):
+                            self.dropped += [j["id"] for j in self.todo if not j.get("prio")]
+                            self.todo = [j for j in self.todo if j.get("prio")]
+                            continue
+                        job = self.todo.pop(0)
+                        self.inflight[job["id"]] = self.pool.apply_async(c05_job, (job,))
+                    if self.closed and not self.todo and not self.inflight:
+                        return
+                time.sleep(0.05)
+        except BaseException as e:  # noqa: BLE001
+            self.error = f"{type(e).__name__}: {e}"
+
+    def finish(self, timeout: float) -> None:
+        with self.lock:
+            self.closed = True
+        self.join(timeout)
+        if self.is_alive():
+            raise MachineryError("replay batches did not finish in time")
+        if self.error:
+            raise MachineryError(f"feeder failed: {self.error}")
+
+
 def c05_job(job: dict) -> dict:
     try:
         return vr.verdict_run_batch(job)
@@ -196,19 +255,23 @@ def _run(chk: Check, tier: str, P: dict, rnd, work, pool, t_start):
         ],
     }
     all_recs: dict = {}
+    ctrl: dict = {}
     jobs: list = []
-    asyncs: list = []
     seen: set = set()
+    feeder = C05Feeder(pool, cap=2 * pool._processes, budget_end=budget_end if tier == "thorough" else t_start + 3600)
+    feeder.start()
 
     def submit(recs: list, allpass: bool = False, enforce: bool = True):
         # timeouts cost wall time: keep them together so that the other batches stay fast
         recs = sorted(recs, key=lambda r: any(a["r"] == "timeout" or a["r2"] == "timeout" for a in r["arms"]))
         for b in range(0, len(recs), BATCH):
             bid = len(jobs)
-            job = {"id": bid, "work": str(work), "scns": recs[b:b + BATCH], "mode": "main" if (bid % 3 == 0 or allpass) else "run_contract",
-                   "allpass": allpass, "enforce": enforce}
+            chunk = recs[b:b + BATCH]
+            prio = allpass or any(r.get("tag") == "must" for r in chunk)
+            job = {"id": bid, "work": str(work), "scns": chunk, "mode": "main" if (bid % 3 == 0 or allpass) else "run_contract",
+                   "allpass": allpass, "enforce": enforce, "prio": prio}
             jobs.append(job)
-            asyncs.append(pool.apply_async(c05_job, (job,)))
+            feeder.add(job, prio)
 
     for f in as_completed(gen_f):
         n = gen_f[f]
@@ -243,11 +306,22 @@ def _run(chk: Check, tier: str, P: dict, rnd, work, pool, t_start):
             if len(passing) < 2:
                 raise MachineryError("no passing scenarios for the exit-code-0 batch")
             submit(passing, allpass=True)
+            # negative control (c): a deliberately wrong wrapper of the halmos function mapping solver replies (unknown
+            # treated as unsat) - queued now, judged with the other controls
+            crecs = [dict(x) for x in c05_sorted_records(r.records)
+                     if x["code"] == 2 and not x["fl"]["early"] and c05_replayable(x)
+                     and any(a["r"] == "unknown" and a["o"] in vr.VIOL for a in x["arms"])][:BATCH]
+            if not crecs:
+                raise MachineryError("no TIMEOUT scenario for the wrapper control")
+            ctrl["recs"] = crecs
+            cjob = {"id": 900000, "work": str(work), "scns": crecs, "mode": "run_contract", "wrapper_mutation": "unknown-as-unsat", "prio": True}
+            ctrl["id"] = cjob["id"]
+            feeder.add(cjob, True)
             # the same passing tests in a contract whose deployment reverts: selected, but no result -> exit 1
             bid = len(jobs)
-            job = {"id": bid, "work": str(work), "scns": passing[:2], "mode": "main", "ctor_revert": True, "enforce": True}
+            job = {"id": bid, "work": str(work), "scns": passing[:2], "mode": "main", "ctor_revert": True, "enforce": True, "prio": True}
             jobs.append(job)
-            asyncs.append(pool.apply_async(c05_job, (job,)))
+            feeder.add(job, True)
         if n in P["free"]:
             # unforced runs (no gates, free-running stubs with small random delays): distinct assignments
             cand, have = [], set()
@@ -265,20 +339,12 @@ def _run(chk: Check, tier: str, P: dict, rnd, work, pool, t_start):
     phases["generation"] = round(time.time() - t_start, 1)
 
     # ---- 2. replay (workers started as the generators finished)
-    results = {}
-    dropped = 0
-    for job, a in zip(jobs, asyncs):
-        left = budget_end - time.time()
-        if left <= 0 and tier == "thorough" and not a.ready():
-            dropped += 1  # thorough: the replay stops at its time budget (the pool is terminated at the end)
-            continue
-        try:
-            results[job["id"]] = a.get(timeout=max(900.0, left + 900))
-        except multiprocessing.TimeoutError:
-            raise MachineryError(f"replay batch {job['id']} did not finish in time")
-    if dropped:
-        chk.cov["replay_batches_dropped_at_time_budget"] = dropped
-        jobs = [j for j in jobs if j["id"] in results]
+    feeder.finish(timeout=max(1800.0, budget_end - time.time() + 1800))
+    results = feeder.results
+    ctrl["out"] = results.pop(ctrl["id"], None)
+    if feeder.dropped:
+        chk.cov["replay_batches_dropped_at_time_budget"] = len(feeder.dropped)
+    jobs = [j for j in jobs if j["id"] in results]
     phases["replay"] = round(time.time() - t_start, 1)
     print(f"[C05] {sum(len(j['scns']) for j in jobs)} scenarios replayed at {phases['replay']}s", flush=True)
     chk.cov["batch_wall_s_max"] = round(max(o["wall"] for o in results.values()), 1)
@@ -341,16 +407,21 @@ def _run(chk: Check, tier: str, P: dict, rnd, work, pool, t_start):
                 chk.count("replayed_with_solver_killed_by_shutdown")
             chk.sample({"scenario": s.key(), "schedule": s.sched_key(), "exitcode": o["exitcode"], "required": s.required,
                         "outputs": o["outputs"]})
-            if forced:
+            unforced_order = forced and s.killed_stuck()
+            if unforced_order:
+                # the confirmation query of a stuck path was in flight when the early-exit shutdown cancelled it: it
+                # surfaces as an err output or as an OSError out of run_test; which one is not forced -> counted only
+                chk.count(f"stuck_confirm_killed_by_shutdown_exitcode_{o['exitcode']}")
+            if forced and not unforced_order:
                 by_assignment.setdefault(s.key(), []).append((s, o, rec))
             if "conformance" in kinds:
                 conformance.append((s.key(), s.sched_key(), [t for k, t in issues if k == "conformance"]))
-            if "property" in kinds:
+            if "property" in kinds and not unforced_order:
                 key = c05_required_class_key(s, o["exitcode"])
                 what = (f"{s.key()} [schedule {s.sched_key()}]: halmos reports {vr.CLASS_OF[o['exitcode']]} (TestResult.exitcode "
                         f"{o['exitcode']}); the property requires {s.required}"
                         + (f"; run_test was left by {o['run_test_exc']}" if o["run_test_exc"] else ""))
-                prop_viol.append((len(s.arms), key, what, {"scenario": rec, "observation": o, "required": s.required}))
+                prop_viol.append((0 if rec.get("tag") == "must" else 1, len(s.arms), key, what, {"scenario": rec, "observation": o, "required": s.required}))
             elif not kinds and forced:
                 clean_obs.append((s, o, rec))
         # process exit code (property: non-zero iff some selected test did not pass)
@@ -366,7 +437,7 @@ def _run(chk: Check, tier: str, P: dict, rnd, work, pool, t_start):
                               f"halmos._main exit code {out['main_exit']} with test exit codes {codes}",
                               {"codes": codes, "main_exit": out["main_exit"], "scenarios": job["scns"]})
     # order (in)dependence on the real runs: all replays of one assignment must give the same verdict
-    for key, lst in sorted(by_assignment.items(), key=lambda kv: (len(kv[1][0][0].arms), kv[0])):
+    for key, lst in sorted(by_assignment.items(), key=lambda kv: (0 if any(r.get("tag") == "must" for _, _, r in kv[1]) else 1, len(kv[1][0][0].arms), kv[0])):
         classes = sorted({vr.CLASS_OF[o["exitcode"]] for _, o, _ in lst})
         if len(lst) > 1:
             chk.count("assignments_replayed_in_several_orders")
@@ -376,7 +447,7 @@ def _run(chk: Check, tier: str, P: dict, rnd, work, pool, t_start):
             k = KEY_ORDER if (s0.early and any(a["o"] == "stuck" for a in s0.arms)) else f"order-dependent:{key}"
             chk.violation(k, f"{key}: the verdict depends on the order in which threads run: {pairs}; required {s0.required}",
                           {"assignment": key, "runs": pairs, "scenarios_raw": [r for _, _, r in lst]})
-    for _, key, what, rep in sorted(prop_viol, key=lambda t: (t[0], t[1], t[2])):
+    for _, _, key, what, rep in sorted(prop_viol, key=lambda t: t[:4]):
         chk.violation(key, what, rep)
     if conformance:
         txt = "\n".join(f"  {k} [{sk}]: {ts}" for k, sk, ts in conformance[:6])
@@ -393,7 +464,7 @@ def _run(chk: Check, tier: str, P: dict, rnd, work, pool, t_start):
     phases["trace_validation"] = round(time.time() - t_start, 1)
 
     # ---- 5. negative controls: the binding binds
-    c05_controls(chk, clean_obs, work, pool, all_recs)
+    c05_controls(chk, clean_obs, ctrl)
 
     phases["controls"] = round(time.time() - t_start, 1)
     # ---- 6. TLC verification results
@@ -491,7 +562,7 @@ def c05_validate_traces(chk: Check, trace_obs: list, work, workers: int, limit: 
     chk.cov.setdefault("negative_controls_rejected", {}).update({k: 1 for k in controls})
 
 
-def c05_controls(chk: Check, clean_obs: list, work, pool, all_recs: dict):
+def c05_controls(chk: Check, clean_obs: list, ctrl: dict):
     rejected = {}
     # (a) mutated expectation tables must be rejected by observations the true table accepts
     for mut in ("unknown-as-unsat", "swap-error-timeout", "stuck-ignored"):
@@ -521,11 +592,10 @@ def c05_controls(chk: Check, clean_obs: list, work, pool, all_recs: dict):
     rejected["record:outputs-order"] = n_out
     rejected["record:dropped-event"] = n_ev
     # (c) a deliberately wrong wrapper of the halmos function mapping solver replies: unknown treated as unsat
-    recs = [r for r in c05_sorted_records(all_recs["genq"])
-            if r["code"] == 2 and not r["fl"]["early"] and any(a["r"] == "unknown" and a["o"] in vr.VIOL for a in r["arms"])][:BATCH]
-    if not recs:
-        raise MachineryError("no TIMEOUT scenario for the wrapper control")
-    out = pool.apply(c05_job, ({"id": 9000, "work": str(work), "scns": recs, "mode": "run_contract", "wrapper_mutation": "unknown-as-unsat"},))
+    recs = ctrl["recs"]
+    out = ctrl.get("out")
+    if out is None:
+        raise MachineryError("the wrapper control did not run")
     if out["obs"] is None:
         raise MachineryError(f"wrapper control failed to run: {out['exception']}")
     n = 0
@@ -555,7 +625,9 @@ def replay(chk: Check, path: str):
             s = vr.verdict_from_record(rec)
             chk.count("traces_validated_against_impl")
             for k, t in vr.verdict_compare(s, o):
-                if k == "property":
+                if k == "property" and s.killed_stuck():
+                    print(f"(not forced: confirmation query killed by the early-exit shutdown) {s.key()}: {t}")
+                elif k == "property":
                     chk.violation(c05_required_class_key(s, o["exitcode"]), f"{s.key()} [schedule {s.sched_key()}]: {t}", {"scenario": rec, "observation": o})
                 elif k in ("machinery", "conformance"):
                     raise MachineryError(f"{k}: {t}")
